@@ -154,7 +154,7 @@ def check(P, rep):
     if 'is_trusted_chain' in c.entries:
         gq = P.graph(CN, 'is_trusted_chain')
         rts = ret_terms(gq)
-        rep.check(bool(rts) and all(r[0] == 'shas' and r[1] == 'persistent' and key_variant(r[2])[0] == 'TrustedChain' and core(key_variant(r[2])[1][0]) == gq.P(1) for r in rts),
+        rep.check(presence_query(gq, 'persistent', 'TrustedChain', gq.P(1)),
                   'C04.R2', 'is_trusted_chain:presence', 'is_trusted_chain returns presence of TrustedChain(chain)', entry_id(gq))
     trys = [e for e in effects(g) if e.kind in ('xcall', 'invoke') and e.try_]
     rep.check(not trys, 'C04.R5', 'execute:no-try-calls', 'no non-trapping (try_) cross-contract call', entry_id(g), '; '.join(x.describe() for x in trys)[:200])
